@@ -29,6 +29,10 @@ def run(ctx):
     ctx.cov['states'] -= ru['distinct']; ctx.cov['transitions'] -= ru['generated']
     if not ru['deadlock']:
         raise vlib.Infra('spec self-test failed: the unsorted variant does not deadlock')
+    rg = ctx.tlc('locks', 'NamedLocks', 'MC_NamedLocks_global.cfg', workers=8, timeout=900, name='global acquisition mutex variant (must violate Independent)')
+    ctx.cov['states'] -= rg['distinct']; ctx.cov['transitions'] -= rg['generated']
+    if 'Independent' not in rg['violated']:
+        raise vlib.Infra('spec self-test failed: the global-acquisition variant does not violate Independent')
     m = ctx.vh(['lockscript', '--rounds', '24' if q else '200'], timeout=3000)
     ctx.cov['replay'].append(dict(what='scripted schedules', executed=m['executed'], failures=m['failures_by_key']))
     ctx.cov['evaluations'] += m['executed']
